@@ -367,7 +367,7 @@ func subset(r *kit.Rand, xs []int) []int {
 func randomJobs(c *kit.Ctx) []job {
 	count, maxN, maxLen, maxFaults := 1500, 3, 12, 1
 	if c.Thorough() {
-		count, maxN, maxLen, maxFaults = 7000, 4, 18, 3
+		count, maxN, maxLen, maxFaults = 5000, 4, 16, 3
 	}
 	var jobs []job
 	for x := 0; x < count; x++ {
